@@ -229,13 +229,20 @@ func (s *seedInfo) mutate(rng *rand.Rand) ([]patch, int, string) {
 		kind := kinds[rng.Intn(len(kinds))]
 		switch kind {
 		case "ptr":
-			p := pick()
-			if !p.Interior() {
+			// pick among the interior pages (a uniform pick over all pages almost never hits one)
+			var interior []*hx.WPage
+			for _, q := range s.pages {
+				if q.Interior() {
+					interior = append(interior, q)
+				}
+			}
+			if len(interior) == 0 {
 				continue
 			}
+			p := interior[rng.Intn(len(interior))]
 			targets := []uint32{0, uint32(p.No), uint32(p.Parent), uint32(npages), uint32(npages + 1), 1 << 31, 1<<32 - 1, 1, uint32(1 + rng.Intn(npages)), uint32(s.pages[rng.Intn(len(s.pages))].No)}
 			t := targets[rng.Intn(len(targets))]
-			if rng.Intn(len(p.Cells)+1) == 0 || len(p.Cells) == 0 {
+			if rng.Intn(3) == 0 || len(p.Cells) == 0 {
 				return []patch{{pageOff(p) + p.HdrOff + 8, hex.EncodeToString(u32(t))}}, -1, "rightmost-ptr"
 			}
 			c := p.Cells[rng.Intn(len(p.Cells))]
